@@ -1,4 +1,5 @@
 mod container;
+mod declared;
 mod detect;
 mod gen;
 mod names;
@@ -46,6 +47,11 @@ fn main() {
             let n = arg(&args, "--n").and_then(|s| s.parse().ok()).unwrap_or(400);
             let r = container::run(seed, n, &driver, &out);
             eprintln!("container: {} evaluations, {} disagreements, {} violations", r["evaluations"], r["disagreements"].as_array().unwrap().len(), r["violations"].as_array().unwrap().len());
+        }
+        "declared" => {
+            let n = arg(&args, "--n").and_then(|s| s.parse().ok()).unwrap_or(1500);
+            let r = declared::run(seed, n, &driver, &out);
+            eprintln!("declared: {} evaluations, {} disagreements, {} violations", r["evaluations"], r["disagreements"].as_array().unwrap().len(), r["violations"].as_array().unwrap().len());
         }
         "total" => {
             let n = arg(&args, "--n").and_then(|s| s.parse().ok()).unwrap_or(200);
